@@ -108,12 +108,23 @@ class Multiplication:
     cpy = segment.clone()
     cpy.name = clone_name
     cpy.connect(self)
+    processed = []
     for l in segment.dovetails + segment.containments:
+      # an edge of the segment with itself is listed once for each side
+      if any(l is p for p in processed):
+        continue
+      processed.append(l)
       lc = l.clone()
       if lc.from_segment == segment.name:
         lc.from_segment = clone_name
       if lc.to_segment == segment.name:
         lc.to_segment = clone_name
+      if lc.name is not None and not gfapy.is_placeholder(lc.name):
+        # the identifier belongs to the original edge
+        if lc.record_type == "E":
+          lc.eid = gfapy.Placeholder()
+        else:
+          lc.delete("ID")
       lc.connect(self)
 
   LINKS_DISTRIBUTION_POLICY = ["off", "auto", "equal", "L", "R"]
